@@ -350,6 +350,15 @@ impl<'p, T> IntoIterator for &'p RawPinnedPool<T> {
     }
 }
 
+#[cfg(folo_verif)]
+impl<T: 'static> RawPinnedPool<T> {
+    /// Verification hook: read-only snapshot of the inner pool's bookkeeping.
+    #[must_use]
+    pub fn verif_probe(&self) -> crate::verif::PoolProbe {
+        self.inner.verif_probe()
+    }
+}
+
 #[cfg(test)]
 #[allow(
     clippy::indexing_slicing,
